@@ -235,6 +235,8 @@ class Rotate(Relation):
             'center': st.tuples(c, c).map(list),
             'pts': st.lists(st.tuples(c, c), min_size=1, max_size=6),
             'scalar': st.booleans(),
+            # N-D coordinate arrays: (2, k), (k, 2) and (k, 1, 2)-shaped
+            'nd': st.sampled_from([None, None, 'rows', 'cols', '3d']),
         })
 
     def check(self, sp, ctx):
@@ -243,8 +245,15 @@ class Rotate(Relation):
         if sp['scalar']:
             p = PixCoord(sp['pts'][0][0], sp['pts'][0][1])
         else:
-            p = PixCoord(np.array([t[0] for t in sp['pts']]),
-                         np.array([t[1] for t in sp['pts']]))
+            xs = np.array([t[0] for t in sp['pts']])
+            ys = np.array([t[1] for t in sp['pts']])
+            nd = sp.get('nd')
+            if nd and len(xs) >= 2:
+                k = len(xs) // 2
+                shape = {'rows': (2, k), 'cols': (k, 2), '3d': (k, 1, 2)}[nd]
+                xs, ys = xs[:2 * k].reshape(shape), ys[:2 * k].reshape(shape)
+                ctx.label('rotate:N-D')
+            p = PixCoord(xs, ys)
         c = PixCoord(cx, cy)
         al, be = S.angle(sp['alpha']), S.angle(sp['beta'])
         ar, br = S.angle_rad_raw(sp['alpha']), S.angle_rad_raw(sp['beta'])
